@@ -17,10 +17,22 @@ FACTORY_PERIOD_KW = {
 
 
 def subst(t, mapping):
+    """Capture-aware substitution: a comprehension / lambda that binds one of the substituted
+    variables itself shadows it."""
     if not isinstance(t, tuple):
         return t
     if is_term(t) and t in mapping:
         return mapping[t]
+    if is_term(t) and t[0] == "comp" and len(t) == 4:
+        bound = {x for tg, _it, _c in t[3] for x in walk(tg) if x[0] == "bv"} if True else set()
+        inner = {k: v for k, v in mapping.items() if k not in bound}
+        if len(inner) != len(mapping):
+            # the iterable of the first generator is evaluated outside the binder
+            gens = list(t[3])
+            first = (gens[0][0], subst(gens[0][1], mapping), tuple(subst(c, inner) for c in gens[0][2]))
+            rest = [(tg, subst(it, inner), tuple(subst(c, inner) for c in cs)) for tg, it, cs in gens[1:]]
+            elt = tuple(subst(e, inner) for e in t[2]) if t[1] == "dict" else subst(t[2], inner)
+            return ("comp", t[1], elt, (first, *rest))
     return tuple(subst(x, mapping) if isinstance(x, tuple) else x for x in t)
 
 
@@ -113,15 +125,37 @@ def pseq(prog, t, depth=0):
         lst, n = (t[2], t[3]) if t[2][0] == "list" else (t[3], t[2])
         if lst[0] == "list" and len(lst[1]) == 1:
             return PSeq(lst[1][0], None, 0, None, n, const=True)
-    if t[0] == "comp" and t[1] == "list" and len(t[3]) == 1 and callee_name(t[3][0][1]) == "builtins.range":
+    if t[0] == "comp" and t[1] in ("list", "gen") and len(t[3]) == 1 and callee_name(t[3][0][1]) == "builtins.range":
         tg, it, conds = t[3][0]
         need(not conds and tg[0] == "bv" and len(it[2]) == 1, "list comprehension outside vocabulary")
         return PSeq(t[2], tg, 0, None, it[2][0])
+    if t[0] == "comp" and t[1] in ("list", "gen") and len(t[3]) == 1 and not t[3][0][2] and t[3][0][0][0] == "bv":
+        # a comprehension over another per-period list: composition
+        tg, it, _conds = t[3][0]
+        base = pseq(prog, it, depth + 1)
+        need(not base.const and base.lv is not None, "comprehension over a constant list")
+        return PSeq(subst(t[2], {tg: base.elem}), base.lv, base.offset, None, base.n)
+    if t[0] == "sub" and t[2][0] == "const" and t[1][0] == "comp" and t[1][1] in ("gen", "list") and len(t[1][3]) == 1 \
+            and callee_name(t[1][3][0][1]) == "builtins.zip" and not t[1][3][0][2]:
+        # (list(col) for col in zip(*rows))[k]  ==  list(zip(*rows)[k])
+        tg, it, _c = t[1][3][0]
+        elt = t[1][2]
+        if elt == tg or (callee_name(elt) in ("builtins.list", "builtins.tuple") and elt[2] == (tg,)):
+            return pseq(prog, ("sub", it, t[2]), depth + 1)
     if t[0] == "sub" and t[2][0] == "slice":
         lo, hi, st = t[2][1], t[2][2], t[2][3]
         if hi is None and st is None and lo is not None and lo[0] == "const":
             base = pseq(prog, t[1], depth + 1)
             return PSeq(base.elem, base.lv, base.offset + lo[1], base.tail, base.n, base.const)
+    if callee_name(t) in ("builtins.list", "builtins.tuple") and len(t[2]) == 1 and not t[3]:
+        return pseq(prog, t[2][0], depth + 1)
+    if t[0] == "sub" and t[2][0] == "const" and callee_name(t[1]) == "builtins.zip" and len(t[1][2]) == 1 and t[1][2][0][0] == "star":
+        # zip(*rows)[k]: the k-th component of every row
+        base = pseq(prog, t[1][2][0][1], depth + 1)
+        from lcmsa.core import _project
+
+        comp = ("sub", base.elem, t[2])
+        return PSeq(_project(base.elem, t[2][1], comp), base.lv, base.offset, base.tail, base.n, base.const)
     if t[0] in ("param", "phi", "ifexp", "call", "attr"):
         # an opaque list: element i is simply t[i]
         return PSeq(("sub", t, BASE), BASE, 0, None, None)
@@ -175,7 +209,12 @@ def period_of(prog, t, var, depth=0):
         name = callee_name(t)
         if name in FACTORY_PERIOD_KW:
             p = kw(t, FACTORY_PERIOD_KW[name])
-            return affine(p, var) if p is not None else None
+            if p is None:
+                return None
+            a = affine(p, var)
+            if a is None and not any(x == var for x in walk(p)):
+                return ("fixed", p)  # built for a period that does not depend on the period it is used in
+            return a
         # derive from arguments that are per-period objects
         found = None
         for _k, v in t[3]:
@@ -208,6 +247,9 @@ def period_of(prog, t, var, depth=0):
             injective = affine(key, var) is not None and affine(key, var)[0] != 0
             if period_specific and not injective and (key[0] in ("cmp", "const", "boolop") or var not in set(walk(key))):
                 return ("shared", key)
+    if t[0] == "sub" and t[1][0] == "comp" and t[1][1] == "dict":
+        # an element of a (finite) dict comprehension: whatever key is used, the value is one of its values
+        return period_of(prog, t[1][2][1], var, depth + 1)
     if t[0] == "sub":
         # L[index]
         try:
@@ -227,6 +269,8 @@ def _fmt(p):
         return "period-independent"
     if p[0] == "conflict":
         return f"conflicting periods {p[1]} vs {p[2]}"
+    if p[0] == "fixed":
+        return f"a fixed period ({show(p[1])[:40]})"
     if p[0] == "shared":
         return f"an object shared between periods (keyed by {show(p[1])[:40]})"
     a, b = p
@@ -339,6 +383,12 @@ def per_rules(ctx: Ctx):
                    lhs=seq.describe(), nontrivial=False)
             return obj
         p = period_of(prog, obj, T)
+        if p is not None and p[0] == "fixed":
+            ctx.ob(key, False, prog.where(raw),
+                   f"{kwname}: the object used in period t is built by a per-period factory with period={show(p[1])[:50]}, "
+                   "which does not depend on t: every period gets the object of one fixed period", lhs=seq.describe(),
+                   rhs=f"t{want:+d}" if want else "t")
+            return obj
         if p is not None and p[0] == "shared":
             ctx.ob(key, False, prog.where(raw),
                    f"{kwname}: the per-period object is looked up in a container keyed by {show(p[1])[:60]}, which takes "
